@@ -35,10 +35,14 @@ import (
 	"io"
 	"net"
 	"net/http"
+	"os"
+	"path/filepath"
+	"runtime"
 	"sort"
 	"strconv"
 	"strings"
 	"sync"
+	"sync/atomic"
 	"testing"
 	"testing/synctest"
 	"time"
@@ -215,6 +219,20 @@ func (h *vfC02Handler) ServeHTTP(w http.ResponseWriter, r *http.Request) {
 			}
 			p = p[c:]
 		}
+	case mode == "slow":
+		// a slow web application: the body comes in two parts 12 s apart (virtual time in a bubble)
+		hd.Set("Content-Type", "text/vf-slow")
+		w.WriteHeader(200)
+		_, _ = io.WriteString(w, "slow-part1:"+id+"\n")
+		if f, ok := w.(http.Flusher); ok {
+			f.Flush()
+		}
+		select {
+		case <-time.After(12 * time.Second):
+		case <-r.Context().Done():
+			return
+		}
+		_, _ = io.WriteString(w, "slow-part2:"+echo)
 	case mode == "flush":
 		hd.Set("Content-Type", "text/vf-chunks")
 		w.WriteHeader(200)
@@ -237,6 +255,7 @@ func (h *vfC02Handler) ServeHTTP(w http.ResponseWriter, r *http.Request) {
 var vfC02Modes = []string{
 	"echo", "echo", "st:201", "st:204", "st:301", "st:304", "st:400", "st:401", "st:403", "st:404", "st:405", "st:418",
 	"st:500", "st:503", "empty", "nowrite", "big:1", "big:1200", "bigcl:16384", "big:70000", "flush", "reqbody", "redirect", "notfound",
+	"slow", // bubble parts only (12 s between the two halves of the body)
 }
 
 // ---------------------------------------------------------------- workload
@@ -360,7 +379,20 @@ func vfC02GenReq(r vfC02Rand, id string) *vfC02Req {
 func vfC02AuthOK(r vfC02Rand, id string) *vfC02Req {
 	q := &vfC02Req{ID: id, Method: "POST", Host: "hysteria", Path: "/auth", HS: "auth_good"}
 	vfC02Decorate(r, q)
+	vfC02NoSlow(q)
 	return q
+}
+
+// vfC02NoSlow: a POST hysteria/auth that the Hysteria server may legitimately answer with 233 at
+// once (the accepted authentication, or a repeat on an authenticated connection) must not ask the
+// web application for its 12 s response: only the reference connection would be busy for 12 s, and
+// a following quiet period would let the Hysteria connection alone run into QUIC's idle timeout —
+// an artefact of the workload, not a difference between the servers. (Workload shaping only; what
+// was accepted is still read from the authenticator's log.)
+func vfC02NoSlow(q *vfC02Req) {
+	if q.exact() && q.Mode == "slow" {
+		q.Mode = "flush"
+	}
 }
 
 // vfC02GenScripts: random sequences; a successful authentication at a random position on
@@ -386,10 +418,12 @@ func vfC02GenScripts(k *vfKit, caseID string) vfC02Case {
 		if authAt >= 0 && r.Intn(3) == 0 {
 			second = authAt + 1 + r.Intn(na-authAt+1)
 		}
+		quiet := false // a long pause has been scheduled since the last request
 		for a := 0; a <= na; a++ {
 			id := fmt.Sprintf("c%dr%d", ci, a)
 			if a == authAt || a == second {
 				cs.Actions = append(cs.Actions, vfC02Action{Kind: "auth_ok", N: a, Req: vfC02AuthOK(r, id)})
+				quiet = false
 				continue
 			}
 			if a == na {
@@ -403,8 +437,18 @@ func vfC02GenScripts(k *vfKit, caseID string) vfC02Case {
 				cs.Actions = append(cs.Actions, vfC02Action{Kind: "dgram", N: a})
 			case x < 20:
 				cs.Actions = append(cs.Actions, vfC02Action{Kind: "sleep", N: a})
+			case x < 27 && !quiet:
+				// a kept-alive connection that is quiet for a while: N = seconds of virtual time, below QUIC's
+				// 30 s idle timeout, and at most one pause between two requests
+				cs.Actions = append(cs.Actions, vfC02Action{Kind: "pause", N: []int{11, 24}[r.Intn(2)]})
+				quiet = true
 			default:
-				cs.Actions = append(cs.Actions, vfC02Action{Kind: "req", N: a, Req: vfC02GenReq(r, id)})
+				q := vfC02GenReq(r, id)
+				if authAt >= 0 && a > authAt {
+					vfC02NoSlow(q)
+				}
+				cs.Actions = append(cs.Actions, vfC02Action{Kind: "req", N: a, Req: q})
+				quiet = false
 			}
 		}
 		c.Conns = append(c.Conns, cs)
@@ -416,6 +460,7 @@ func vfC02GenScripts(k *vfKit, caseID string) vfC02Case {
 
 type vfC02ConnState struct {
 	k          int
+	born       time.Time // (virtual) time the connection pair was established
 	hy, ref    *vfRaw
 	accepted   bool // the authenticator fake accepted this connection (from its log)
 	windowAuth int  // auth_call events attributed to request windows
@@ -448,6 +493,8 @@ func vfC02RespSummary(r vfResp) map[string]any {
 }
 
 func vfC02Run(t *testing.T, k *vfKit, c vfC02Case) {
+	vfC02CurrentCase.Store(c.CaseID)
+	defer vfC02Progress.Add(1)
 	synctest.Test(t, func(t *testing.T) {
 		var masq http.Handler // what the Hysteria server gets
 		var refH http.Handler = http.HandlerFunc(http.NotFound)
@@ -493,7 +540,7 @@ func vfC02Run(t *testing.T, k *vfKit, c vfC02Case) {
 		scriptDone := make(chan struct{}, len(c.Conns))
 		for i := range c.Conns {
 			cs := c.Conns[i]
-			st := &vfC02ConnState{k: cs.K}
+			st := &vfC02ConnState{k: cs.K, born: time.Now()}
 			states[i] = st
 			if st.hy, err = vfC02Dial(w, w.ServerAddr); err != nil {
 				t.Fatalf("harness: dial hysteria: %v", err)
@@ -519,6 +566,9 @@ func vfC02Run(t *testing.T, k *vfKit, c vfC02Case) {
 					switch a.Kind {
 					case "sleep":
 						time.Sleep(time.Duration(13+7*a.N) * time.Millisecond)
+					case "pause":
+						k.Count("ev_long_pause", 1)
+						time.Sleep(time.Duration(a.N) * time.Second)
 					case "req", "auth_ok":
 						vfC02DoRequest(k, w, c, st, a.Req, rep)
 					case "stream":
@@ -598,6 +648,10 @@ func vfC02Run(t *testing.T, k *vfKit, c vfC02Case) {
 
 func vfC02DoRequest(k *vfKit, w *vfWorld, c vfC02Case, st *vfC02ConnState, q *vfC02Req, rep func(map[string]any) map[string]any) {
 	k.Eval()
+	defer vfC02Progress.Add(1)
+	if age := time.Since(st.born); age > 10*time.Second && !st.accepted {
+		k.Count("ev_request_on_unauthenticated_conn_older_than_10s", 1)
+	}
 	hdr, body := q.headers(), q.body()
 	acceptedBefore := st.accepted
 	l0 := w.Log.Len()
@@ -779,6 +833,60 @@ func vfC02DoStream(k *vfKit, w *vfWorld, c vfC02Case, st *vfC02ConnState, n int,
 	}
 }
 
+// ---------------------------------------------------------------- frozen-bubble guard
+
+// A goroutine of the code under test that waits on a sync.Mutex forever is not "durably
+// blocked" for synctest: the bubble's clock stops and nothing ever times out. Virtual-time
+// bounds (every request has a 60 s context, every stream read a deadline) cannot help then.
+// vfC02FreezeGuard runs OUTSIDE the bubble: if no request completes for 150 s of real time
+// (a request normally costs micro- to milliseconds), it writes the goroutine dump, records the
+// case as inconclusive (a frozen bubble is not by itself a verdict: the real-time parts, which
+// run first, decide "never answered"), writes the part's result and ends the process instead
+// of leaving it to the runner's 10 min watchdog.
+var (
+	vfC02Progress    atomic.Int64
+	vfC02CurrentCase atomic.Value
+)
+
+func vfC02FreezeGuard(k *vfKit) (stop func()) {
+	done := make(chan struct{})
+	go func() {
+		last, lastChange := vfC02Progress.Load(), time.Now()
+		for {
+			select {
+			case <-done:
+				return
+			case <-time.After(2 * time.Second):
+			}
+			if p := vfC02Progress.Load(); p != last {
+				last, lastChange = p, time.Now()
+				continue
+			}
+			if time.Since(lastChange) < 150*time.Second {
+				continue
+			}
+			buf := make([]byte, 16<<20)
+			buf = buf[:runtime.Stack(buf, true)]
+			dump := filepath.Join(k.Out, "frozen-bubble-"+k.Name+".txt")
+			_ = os.WriteFile(dump, buf, 0o644)
+			var stuck []string
+			for _, g := range strings.Split(string(buf), "\n\n") {
+				head, _, _ := strings.Cut(g, "\n")
+				if strings.Contains(head, "synctest bubble") && !strings.Contains(head, "(durable)") && !strings.Contains(head, "[running") && !strings.Contains(head, "[runnable") {
+					lines := strings.Split(g, "\n")
+					stuck = append(stuck, strings.Join(lines[:min(len(lines), 9)], " | "))
+				}
+			}
+			k.Inconclusive(fmt.Sprintf("case %v: the synctest bubble made no progress for 150 s of real time: some goroutine is blocked in a way that is not durable (e.g. waiting for a mutex that is never released), so virtual time cannot advance. Not durably blocked: %q. Full dump: %s",
+				vfC02CurrentCase.Load(), stuck, dump))
+			k.Finish()
+			fmt.Fprintf(os.Stderr, "verif C02: frozen synctest bubble in case %v, giving up (inconclusive); dump in %s\n", vfC02CurrentCase.Load(), dump)
+			os.Exit(2)
+		}
+	}()
+	return func() { close(done) }
+}
+
 // ---------------------------------------------------------------- tests
 
 // TestVerifC02Matrix sweeps the complete stated matrix methods x authorities x paths x header
@@ -787,6 +895,7 @@ func vfC02DoStream(k *vfKit, w *vfWorld, c vfC02Case, st *vfC02ConnState, n int,
 func TestVerifC02Matrix(t *testing.T) {
 	k := vfNewKit(t, "C02", "c02-matrix")
 	defer k.Finish()
+	defer vfC02FreezeGuard(k)()
 	rounds := k.N(1, 6)
 	const perConn, connsPerWorld = 48, 3
 	world := 0
@@ -821,9 +930,15 @@ func TestVerifC02Matrix(t *testing.T) {
 						n := min(perConn, len(cells))
 						for i, q := range cells[:n] {
 							q.ID = fmt.Sprintf("c%dr%d", ci, i+1)
+							if post {
+								vfC02NoSlow(q)
+							}
 							cs.Actions = append(cs.Actions, vfC02Action{Kind: "req", N: i + 1, Req: q})
 						}
 						cells = cells[n:]
+						// one long quiet period somewhere on the (kept-alive) connection
+						at := len(cs.Actions) - n + r.Intn(n+1)
+						cs.Actions = append(cs.Actions[:at], append([]vfC02Action{{Kind: "pause", N: 11}}, cs.Actions[at:]...)...)
 						c.Conns = append(c.Conns, cs)
 					}
 					if rc := k.ReplayCase(); rc != "" && rc != c.CaseID {
@@ -845,6 +960,7 @@ func TestVerifC02Matrix(t *testing.T) {
 func TestVerifC02Scripts(t *testing.T) {
 	k := vfNewKit(t, "C02", "c02-scripts")
 	defer k.Finish()
+	defer vfC02FreezeGuard(k)()
 	n := k.N(120, 4000)
 	for i := 0; i < n; i++ {
 		caseID := fmt.Sprintf("c02s-%d", i)
@@ -1194,4 +1310,213 @@ func vfC02OverlapRun(t *testing.T, k *vfKit, caseID string, idx int) {
 		k.Count("ev_compared_auth_rejected", 1)
 	}
 	compare(c.Pending, pendR, refPendR, pendDone, refPendDone, "the pending rejected auth request")
+}
+
+// ---------------------------------------------------------------- repeated rejected auth on one connection (real time)
+
+// TestVerifC02Repeat: SEQUENCES of 2..4 POST hysteria/auth requests with rejected credentials on
+// ONE unauthenticated connection, interleaved with ordinary / near-miss requests; every one of
+// them must be answered like the plain web server answers its twin. Real time on simnet (no
+// bubble: a request that waits for a server mutex forever would freeze a bubble's clock instead
+// of being reported), and it runs before the bubble parts. "Never answered" is decided on the
+// logical clock of the overlap part: the reference server has answered the twin request, 2 x 40
+// sequential request/response round trips on an untouched second connection (and on one to the
+// reference) have completed, and the Hysteria server still has not answered.
+func TestVerifC02Repeat(t *testing.T) {
+	k := vfNewKit(t, "C02", "c02-repeat")
+	defer k.Finish()
+	n := k.N(20, 400)
+	for i := 0; i < n; i++ {
+		caseID := fmt.Sprintf("c02r-%d", i)
+		if rc := k.ReplayCase(); rc != "" && rc != caseID {
+			continue
+		}
+		vfC02RepeatRun(t, k, caseID, i)
+	}
+}
+
+type vfC02RepeatCase struct {
+	CaseID    string      `json:"case_id"`
+	Custom    bool        `json:"custom_handler"`
+	LatencyMs int         `json:"latency_ms"`
+	Seq       []*vfC02Req `json:"sequence"`
+	RoundTrip int         `json:"logical_clock_round_trips"`
+}
+
+func vfC02RepeatRun(t *testing.T, k *vfKit, caseID string, idx int) {
+	const watchdog = 30 * time.Second
+	r := k.Rand(caseID)
+	c := vfC02RepeatCase{CaseID: caseID, Custom: r.Intn(2) == 0, LatencyMs: 1 + r.Intn(2), RoundTrip: 40}
+	nRej, nOrd := 2+r.Intn(3), r.Intn(5)
+	for j := 0; j < nRej; j++ {
+		c.Seq = append(c.Seq, &vfC02Req{Method: "POST", Host: "hysteria", Path: "/auth", HS: vfC02HeaderSets[r.Intn(5)], BodyN: -1})
+	}
+	for j := 0; j < nOrd; j++ {
+		c.Seq = append(c.Seq, vfC02GenReq(r, ""))
+	}
+	r.Shuffle(len(c.Seq), func(i, j int) { c.Seq[i], c.Seq[j] = c.Seq[j], c.Seq[i] })
+	for j, q := range c.Seq {
+		q.ID = fmt.Sprintf("%s-q%d", caseID, j)
+		q.Mode = vfC02SmallModes[r.Intn(len(vfC02SmallModes))]
+		if q.BodyN > 3000 {
+			q.BodyN = 3000
+		}
+	}
+	if idx < 3 {
+		k.Sample(c)
+	}
+
+	var masq http.Handler
+	var refH http.Handler = http.HandlerFunc(http.NotFound)
+	if c.Custom {
+		app := &vfC02Handler{hits: map[string]int{}}
+		masq, refH = app, app
+	}
+	w, err := vfNewWorld(vfServerOpts{
+		Latency: time.Duration(c.LatencyMs) * time.Millisecond,
+		Config:  func(sc *server.Config) { sc.MasqHandler = masq },
+	})
+	if err != nil {
+		t.Fatalf("harness: server: %v", err)
+	}
+	defer w.Close()
+	ref, err := vfC02StartRef(w, refH)
+	if err != nil {
+		t.Fatalf("harness: reference server: %v", err)
+	}
+	w.onClose(ref.Close)
+	dial := func(to *net.UDPAddr) *vfRaw {
+		x, err := vfC02Dial(w, to)
+		if err != nil {
+			t.Fatalf("harness: dial: %v", err)
+		}
+		return x
+	}
+	hyA, refA := dial(w.ServerAddr), dial(ref.Addr)
+	hyB, refB := dial(w.ServerAddr), dial(ref.Addr)
+	rep := func(extra map[string]any) map[string]any {
+		m := map[string]any{"case_id": c.CaseID, "case": c, "tag": hyA.Tag}
+		for a, b := range extra {
+			m[a] = b
+		}
+		return m
+	}
+	send := func(x *vfRaw, q *vfC02Req) chan vfResp {
+		ch := make(chan vfResp, 1)
+		go func() { ch <- x.Do(q.Method, q.Host, q.Path, q.headers(), q.body()) }()
+		return ch
+	}
+	// logical clock: 2K sequential round trips on each untouched connection; "done" = all completed
+	clock := func(stop chan struct{}) chan string {
+		out := make(chan string, 1)
+		go func() {
+			for i := 0; i < 2*c.RoundTrip; i++ {
+				select {
+				case <-stop:
+					out <- "stopped"
+					return
+				default:
+				}
+				for _, x := range []*vfRaw{hyB, refB} {
+					rr := x.Do("GET", "example.com", fmt.Sprintf("/clock/%d", i), http.Header{"X-Vf-Mode": {"echo"}, "X-Vf-Id": {"clock"}}, nil)
+					if rr.Err != nil {
+						out <- "failed: " + rr.Err.Error()
+						return
+					}
+				}
+				k.Count("ev_clock_round_trips", 2)
+			}
+			out <- "done"
+		}()
+		return out
+	}
+
+	rejectedSeen := 0
+	expectCreds := map[string]int{}
+	for j, q := range c.Seq {
+		k.Eval()
+		if q.exact() {
+			expectCreds[q.headers().Get("Hysteria-Auth")]++
+		}
+		hyCh, refCh := send(hyA, q), send(refA, q)
+		var refR vfResp
+		select {
+		case refR = <-refCh:
+		case <-time.After(watchdog):
+			k.Inconclusive(fmt.Sprintf("%s: the reference server did not answer request %d within %v real time", caseID, j, watchdog))
+			return
+		}
+		if refR.Err != nil {
+			k.Inconclusive(fmt.Sprintf("%s: reference server gave no response to request %d: %v", caseID, j, refR.Err))
+			return
+		}
+		stop := make(chan struct{})
+		clk := clock(stop)
+		var hyR vfResp
+		answered := false
+		select {
+		case hyR = <-hyCh:
+			answered = true
+			close(stop)
+			<-clk
+		case res := <-clk:
+			select {
+			case hyR = <-hyCh: // arrived together with the last tick
+				answered = true
+			default:
+			}
+			if !answered && res != "done" {
+				k.Inconclusive(fmt.Sprintf("%s: logical-clock connection %s while waiting for request %d", caseID, res, j))
+				return
+			}
+		}
+		desc := fmt.Sprintf("%s https://%s%s [%s, handler %v, mode %s, request %d of a sequence on one unauthenticated connection, %d rejected auth request(s) before it]",
+			q.Method, q.Host, q.Path, q.HS, c.Custom, q.Mode, j, rejectedSeen)
+		if !answered {
+			k.Violation("server:request-never-answered", rep(map[string]any{"request": q, "index": j, "rejected_auth_before": rejectedSeen, "reference": vfC02RespSummary(refR)}),
+				"%s: the plain web server answered %d; the Hysteria server gave no response while %d request/response round trips completed on another connection to it (and as many on the reference server)",
+				desc, refR.Status, 2*c.RoundTrip)
+			return // the rest of the sequence would queue up behind it
+		}
+		k.Count("ev_compared", 1)
+		if q.exact() {
+			k.Count("ev_compared_auth_rejected", 1)
+			if rejectedSeen > 0 {
+				k.Count("ev_repeated_rejected_auth_answered", 1)
+			}
+		} else if rejectedSeen > 0 {
+			k.Count("ev_request_after_rejected_auth_answered", 1)
+		}
+		k.Nontrivial(fmt.Sprintf("repeat|%v|%d|%s|%s|%s|%s|%s", c.Custom, rejectedSeen, q.Method, q.Host, q.Path, q.HS, q.Mode))
+		wit := func(extra map[string]any) map[string]any {
+			m := rep(map[string]any{"request": q, "index": j, "hysteria": vfC02RespSummary(hyR), "reference": vfC02RespSummary(refR)})
+			for a, b := range extra {
+				m[a] = b
+			}
+			return m
+		}
+		vfC02CompareResp(k, desc, wit, q, hyR, refR, false)
+		if q.exact() {
+			rejectedSeen++
+		}
+	}
+	time.Sleep(10 * time.Millisecond) // orchestration: let late log entries land
+	// authenticator census: one call per auth-shaped request, with its credential; nothing else, nothing accepted
+	for _, e := range w.Log.Snapshot() {
+		if e.Tag != hyA.Tag && e.Tag != hyB.Tag {
+			continue
+		}
+		switch e.Kind {
+		case "auth_call":
+			a, _ := e.F["auth"].(string)
+			if e.Tag == hyA.Tag && expectCreds[a] > 0 {
+				expectCreds[a]--
+				continue
+			}
+			k.Violation("server:authenticator-consulted-for-near-miss", rep(map[string]any{"event": e}),
+				"authenticator called with %q for connection %s, which no POST hysteria/auth of the sequence accounts for", a, e.Tag)
+		case "auth_ok":
+			k.Violation("server:authenticator-consulted-for-near-miss", rep(map[string]any{"event": e}), "connection %s was accepted although no request carried acceptable credentials in an auth request", e.Tag)
+		}
+	}
 }
